@@ -79,6 +79,9 @@ func c08Taint(p *ana.Prog, r *ana.Result) *ana.TaintState {
 	}
 	cfg := ana.TaintCfg{
 		CleanResults: map[string]string{},
+		CleanCallees: map[string]string{
+			"(github.com/scionproto/scion/pkg/daemon.Connector).": "answers of the local SCION daemon (paths, DRKeys) are local trusted input, not network input of this process",
+		},
 		CleanCalls: map[string]string{
 			"(*" + ana.ModPath + "/net/ntske.EncryptedServerCookie).Decrypt|(crypto/cipher.AEAD).Open": "cookie plaintext was sealed under a key only this server (and its key-exchange server) holds: its shape is this program's own output",
 		}}
